@@ -907,16 +907,20 @@ func ruleR30(c *Ctx) {
 			}
 		}
 		if f.Obj.Name() == "MarshalXML" {
-			ast.Inspect(f.Body, func(m ast.Node) bool {
-				if kv, ok := m.(*ast.KeyValueExpr); ok {
-					if id, ok := kv.Key.(*ast.Ident); ok && id.Name == "Local" {
-						if s, ok := constString(fin, kv.Value); ok {
-							writtenAttr = append(writtenAttr, s)
+			for _, wf := range withSamePkgCallees(p, f, 2) {
+				wfin := info(wf)
+				ast.Inspect(wf.Body, func(m ast.Node) bool {
+					if kv, ok := m.(*ast.KeyValueExpr); ok {
+						if id, ok := kv.Key.(*ast.Ident); ok && id.Name == "Local" {
+							if s, ok := constString(wfin, kv.Value); ok {
+								writtenAttr = append(writtenAttr, s)
+							}
 						}
 					}
-				}
-				return true
-			})
+					return true
+				})
+			}
+			_ = fin
 		}
 	}
 	// (d) the kind VALUE written for each expression type is classified the same way by the reader
@@ -972,6 +976,32 @@ func ruleR30(c *Ctx) {
 									if sv, ok := constString(fin, kv.Value); ok {
 										written[tn] = sv
 									}
+								}
+							}
+							// a helper that builds the attribute from the kind it is handed
+							if cl, ok := z.(*ast.CallExpr); ok {
+								if cf := p.byObj[callee(fin, cl)]; cf != nil && cf.Pkg == f.Pkg && cf.Body != nil && cf.Obj != nil {
+									cin := info(cf)
+									sig := cf.Obj.Type().(*types.Signature)
+									ast.Inspect(cf.Body, func(y ast.Node) bool {
+										kv, ok := y.(*ast.KeyValueExpr)
+										if !ok {
+											return true
+										}
+										if id, ok := kv.Key.(*ast.Ident); !ok || id.Name != "Value" {
+											return true
+										}
+										if vid, ok := unparen(kv.Value).(*ast.Ident); ok {
+											for i := 0; i < sig.Params().Len() && i < len(cl.Args); i++ {
+												if objOf(cin, vid) == types.Object(sig.Params().At(i)) {
+													if sv, ok := constString(fin, cl.Args[i]); ok {
+														written[tn] = sv
+													}
+												}
+											}
+										}
+										return true
+									})
 								}
 							}
 							return true
